@@ -94,6 +94,13 @@ Theorem predicates_derive_from_cmp : forall s a b, dom s a -> dom s b ->
 Proof. exact CmpProofs.cmp_predicates. Qed.
 Print Assumptions predicates_derive_from_cmp.
 
+(* 10b. ... and on ANY operands (also outside the sorts) they are the tests of whatever cmp returns *)
+Theorem predicates_are_tests_of_cmp : forall a b c, value_cmp a b = Some c ->
+  v_eq a b = Some (c =? 0) /\ v_neq a b = Some (negb (c =? 0)) /\ v_lt a b = Some (c <? 0) /\
+  v_gt a b = Some (0 <? c) /\ v_le a b = Some (negb (0 <? c)) /\ v_ge a b = Some (negb (c <? 0)).
+Proof. exact CmpProofs.cmp_predicates_as_coded. Qed.
+Print Assumptions predicates_are_tests_of_cmp.
+
 (* 11. the generic lifting used for every container: element order laws => laws of the
        parallel-iteration comparison with its length tie-break *)
 Theorem lex_lift_total_order : forall {A} (D : A -> Prop) (eqv : A -> A -> Prop) (c : A -> A -> comparison) xs,
